@@ -12,6 +12,7 @@ JRoundtrip(e) ==
 (* regular expressions: same language (exact) and same printed form *)
 JRoundtripRe(e) ==
   IF e.exc # "none" THEN {"raised_" \o e.exc}
-  ELSE BadX("same_language", ~ReEquiv(e.re, e.parsed))
+  ELSE BadX("same_language", ~ReEquiv(IF "sem" \in DOMAIN e THEN e.sem ELSE e.re,
+                                      IF "parsed_sem" \in DOMAIN e THEN e.parsed_sem ELSE e.parsed))
        \cup BadX("same_printed_form", e.text2 # e.text)
 =============================================================================
